@@ -13,20 +13,6 @@ set_option linter.unusedSimpArgs false
 namespace Ucan.Tie
 open Ucan Ucan.GoM Ucan.Policy
 
-mutual
-/-- nesting depth of a node: 0 for scalars -/
-def nodeDepth : Node → Nat
-  | .list xs => nodeDepthList xs + 1
-  | .map kvs => nodeDepthMap kvs + 1
-  | _ => 0
-def nodeDepthList : List Node → Nat
-  | [] => 0
-  | x :: xs => max (nodeDepth x) (nodeDepthList xs)
-def nodeDepthMap : List (Bytes × Node) → Nat
-  | [] => 0
-  | (_, x) :: xs => max (nodeDepth x) (nodeDepthMap xs)
-end
-
 /-- running `g` over a list, stopping at the first failure -/
 def allOk (g : Node → GoM Unit) : List Node → GoM Unit
   | [] => .ok ()
